@@ -103,7 +103,7 @@ def run_property(prop, tier, seed, jobs):
         results = [_task(t) for t in tasks]
     known = load_known()
     crashes = [r for r in results if "crash" in r]
-    all_obl, failed, undecided, knownhits = [], [], [], []
+    all_obl, failed, undecided, knownhits, skipped = [], [], [], [], []
     touched = {}
     native_runs = 0
     native_checked = 0
@@ -139,6 +139,8 @@ def run_property(prop, tier, seed, jobs):
                 pc["discharged"] += 1
             elif o["status"] == "failed":
                 failed.append(o)
+            elif o["status"] == "skipped":
+                skipped.append(o)
             else:
                 undecided.append(o)
     # ---- verdicts
@@ -190,11 +192,17 @@ def run_property(prop, tier, seed, jobs):
         und_names.setdefault(o["name"], []).append(o)
     for name, lst in list(und_names.items())[:40]:
         print(f"UNDECIDED property={prop} obligation={name} x{len(lst)}: {str(lst[0].get('detail'))[:300]}")
+    sk_names = {}
+    for o in skipped:
+        sk_names.setdefault(o["cid"], []).append(o)
+    for cid_, lst in list(sk_names.items())[:40]:
+        print(f"NOTE property={prop} modular proof {cid_} skipped on {len(lst)} path(s) - the code no longer has the shape the contract was written for; "
+              f"the S / B contracts of the same function decide: {str(lst[0].get('detail'))[:240]}")
     for c in crashes[:5]:
         print(f"CHECKER-ERROR: {c['cid']} {c['st']}: {c['crash'][:2000]}")
 
     # ---- evidence
-    n_obl = len(all_obl)
+    n_obl = sum(1 for o in all_obl if o["status"] != "skipped")
     n_dis = sum(1 for o in all_obl if o["status"] == "discharged")
     samples = []
     seen_c = set()
@@ -230,7 +238,7 @@ def run_property(prop, tier, seed, jobs):
                                 "structures_enumerated": struct_counts[cid]} for cid in cids},
             "backends": backends, "solver_calls": solver_calls, "solver_time_s": round(solver_time, 3),
             "native_runs": native_runs, "native_failed": len(native_failed),
-            "undecided": len(undecided), "failed": len(failed), "known_findings_hit": sorted(set(knownhits)),
+            "undecided": len(undecided), "failed": len(failed), "skipped_modular_proofs": {k: len(v) for k, v in sk_names.items()}, "known_findings_hit": sorted(set(knownhits)),
             "notes": sorted(notes)[:50], "bounds": meta.get("bounds", {}).get(tier, meta.get("bounds", "")),
             "exhaustive": False,
         },
@@ -242,7 +250,7 @@ def run_property(prop, tier, seed, jobs):
     os.makedirs(evdir, exist_ok=True)
     json.dump(ev, open(os.path.join(evdir, f"{prop}.json"), "w"), indent=1, default=str)
     print(f"{prop} [{tier}] contracts={len(cids)} structures={len(tasks)} obligations={n_obl} discharged={n_dis} failed={len(failed)} "
-          f"undecided={len(undecided)} native_runs={native_runs} native_checks={native_checked} native_failed={len(native_failed)} functions={len(touched)} "
+          f"undecided={len(undecided)} skipped={len(skipped)} native_runs={native_runs} native_checks={native_checked} native_failed={len(native_failed)} functions={len(touched)} "
           f"solver_calls={solver_calls} solver_time={solver_time:.1f}s wall={time.time() - t0:.1f}s")
     slow = sorted((r for r in results if "crash" not in r), key=lambda r: -r["wall"])[:3]
     print("slowest tasks: " + "; ".join(f"{r['cid'].split('.', 1)[1][:30]} {r['wall']:.1f}s paths={r['paths']}" for r in slow))
